@@ -427,6 +427,11 @@ func (s *Server) verifyVotes(cd *commonData, votes []SingleVote, asig []byte, st
 				return fmt.Errorf("verifyBlsVotes can't recover signer info, error: %v", err)
 			}
 			addr = crypto.PubkeyToAddress(*pubKey)
+			// only online members of the voting kind are entitled to vote
+			// (the live vote path already admits no others)
+			if validator.Kind() != kind || !validator.IsOnline() {
+				continue
+			}
 			if staData[addr] == true {
 				continue
 			} else {
